@@ -1573,7 +1573,7 @@ fn remove_root_attrs(attrs: &mut Vec<Attribute>, kinds: &HelperAttributeKinds) {
     attrs.retain(|attr| !kinds.is_match(attr) && !is_root_derive_ex_attr(attr));
 }
 /// `#[derive_ex(..)]`, `#[derive_ex::derive_ex(..)]` or `#[::derive_ex::derive_ex(..)]` on the item itself.
-fn is_root_derive_ex_attr(attr: &Attribute) -> bool {
+pub(crate) fn is_root_derive_ex_attr(attr: &Attribute) -> bool {
     let p = attr.path();
     (p.segments.len() == 1 || p.segments.len() == 2)
         && p.segments
